@@ -13,6 +13,15 @@ CHECKS = {
          "Trusted: Lean kernel, propext/Classical.choice/Quot.sound, the gcc build of the generated C (Cython absent), the harness. "
          "Modelled, not verified: the C compiler's output.",
          "Lean 4 proof (induction) + exhaustive model/implementation correspondence", "§6 C11"),
+ "C05": ("Lean 4 theorems over definitions REGENERATED from fastparquet/api.py on every run (filter_val, filter_in, filter_not_in): "
+         "whenever the interval test says 'exclude', no cell within the recorded bounds satisfies the condition, for every comparison "
+         "operator and 'in' (incl. searchsorted and one-sided bounds), and for 'not in' when min = max; the full 'not in' statement is "
+         "refuted by a proved counter-example (known finding). The pruning loop (filter_out_stats / filter_out_cats / "
+         "filter_row_groups) is a hand model tied by correspondence on generated datasets; the property oracle (no qualifying row "
+         "lost; result is a concatenation of whole row groups) runs on the real code.",
+         "Trusted: Lean kernel + propext/Classical.choice/Quot.sound, the Python->Lean translator (validated against the real functions on an "
+         "exhaustive grid each run), rank-mapping of ordered scalars to Int. Outside the model: partition text typing, cross-type comparison.",
+         "Lean 4 proof over regenerated model + correspondence", "§6 C05"),
 }
 
 def main():
